@@ -2,6 +2,7 @@
 #![allow(dead_code, unused_imports, clippy::too_many_arguments, clippy::type_complexity, clippy::collapsible_if)]
 mod app;
 mod conn;
+mod explore;
 mod genpkt;
 mod libcodec;
 mod map;
